@@ -204,7 +204,6 @@ fn min_delay_ns(p: &Policy, k: usize) -> Option<u128> {
             Policy::CustomLinear => Some(att as u128 * 1_000_000),
             Policy::Fixed(ms) => Some(*ms as u128 * 1_000_000),
             Policy::FixedMicros(us) => Some(*us as u128 * 1_000),
-            other => build_policy(other).delay_for_attempt(att).map(|d| d.as_nanos()),
         }
     };
     let _ = FixedInterval::new(Duration::ZERO);
